@@ -115,7 +115,7 @@ impl Cs {
 /// Payload classes, simplest first (the shrinker moves towards lower indices).
 pub const PAYLOADS: &[&str] = &[
     "1B", "empty", "N", "Z", "4", "E", "F", "N+", "Z+", "4+", "E+", "F+", "cs-1", "cs", "cs+1", "2cs", "2cs+1",
-    "zeros70", "rand67", "blte", "long1029",
+    "zeros70", "rand67", "blte", "long1029", "rand40k",
 ];
 pub type P = u8;
 
@@ -153,6 +153,9 @@ pub fn payload(p: P, cs: Cs, seed: u64) -> Vec<u8> {
         "rand67" => fill(67),
         "blte" => b"BLTE\0\0\0\0Nhi".to_vec(),
         "long1029" => fill(1029),
+        // incompressible and larger than zlib's 32 KiB stored-block limit and flate2's read buffer:
+        // used only with the default chunk size (one big chunk), see tier_levels
+        "rand40k" => fill(40_000),
         other => unreachable!("payload class {other}"),
     }
 }
@@ -1183,7 +1186,15 @@ fn names(ps: &[&str]) -> Vec<P> {
 }
 
 fn tier_levels(tier: Tier) -> Vec<LevelDef> {
-    let all_payloads: Vec<P> = (0..PAYLOADS.len() as P).collect();
+    let all_payloads: Vec<P> = (0..PAYLOADS.len() as P).filter(|p| PAYLOADS[*p as usize] != "rand40k").collect();
+    // the big incompressible payload: depth 1, default chunk size only (a single large chunk per call)
+    let big_level = |all_modes: &Vec<Mode>| LevelDef {
+        depth: 1,
+        modes: all_modes.clone(),
+        css: vec![Cs::Default],
+        encs: vec![None, Some(0), Some(2)],
+        alpha: CallAlphabet { payloads: vec![pclass("rand40k")], specs: vec![0, 2], chunk_modes: all_modes.clone() },
+    };
     // depth 2 leaves out the three many-chunk classes (they stay at depth 1 under every configuration)
     let no_long: Vec<P> = all_payloads
         .iter()
@@ -1220,8 +1231,10 @@ fn tier_levels(tier: Tier) -> Vec<LevelDef> {
                     chunk_modes: nz4.clone(),
                 },
             },
+            big_level(&all_modes),
         ],
         Tier::Thorough => vec![
+            big_level(&all_modes),
             LevelDef {
                 depth: 0,
                 modes: all_modes.clone(),
